@@ -4,7 +4,7 @@
    (interleaving) of its trace semantics; the second group is about
    [current_table], which props/C10_translate.py regenerates from the C++ sources
    of /repo on every run (C10_AccessTable.v). *)
-Require Import List String Bool.
+Require Import List String Bool Arith.
 Import ListNotations.
 Require Import BFL.C10_Model BFL.C10_Proofs BFL.C10_AccessTable BFL.C10_Current.
 Local Open Scope string_scope.
@@ -56,7 +56,11 @@ Proof. exact ex_bad_tbl_races. Qed.
 
 (* ---------------------------------------------------------------- the table of the current sources *)
 
-(* THE PROPERTY, on the table regenerated from the sources of this run: the checker reports no
+(* Premise of everything below, built into the semantics: ONE controlling thread ([Ctl] is a single
+   thread; two control methods never overlap).  Pairs of control accesses that would conflict with
+   two controllers are listed separately ([ctl_ctl_offenders], reported in the evidence).
+
+   THE PROPERTY, on the table regenerated from the sources of this run: the checker reports no
    offending pair, i.e. every pair of accesses to the same variable from the controlling thread and
    from the filtering thread, at least one a write, is both-atomic, under the same mutex, or ordered
    by thread creation / join.  A new race, a control flag or a skip flag losing its atomic or its
@@ -77,6 +81,15 @@ Theorem C10_current_table_no_adjacent_conflict tr : valid current_table tr -> fo
   nth_error tr i = Some (t1, EAcc o1) -> nth_error tr (S i) = Some (t2, EAcc o2) -> t1 <> t2 ->
   conflicting (o_acc o1) (o_acc o2) = true -> both_atomic (o_acc o1) (o_acc o2) = true.
 Proof. exact (current_no_adjacent_conflict tr). Qed.
+
+(* the table is not trivially green: the control flags, the mutex, the condition variable, the six skip
+   flags and SkipFlag::value_ are all seen as shared by both threads, and at least 20 control and 100
+   filtering-thread method bodies are in the table *)
+Theorem C10_current_table_covers_the_control_state :
+  subset_str required_shared (shared_vars current_table) = true /\
+  Nat.leb min_ctl_methods (n_methods current_table Ctl) = true /\
+  Nat.leb min_flt_methods (n_methods current_table Flt) = true.
+Proof. exact current_table_covers. Qed.
 
 (* the translator's Python mirror of the checker (used for reporting) agrees with the Coq checker *)
 Theorem C10_reported_offenders_are_the_checked_ones :
@@ -99,4 +112,5 @@ Print Assumptions C10_current_table_race_free.
 Print Assumptions C10_current_table_discipline.
 Print Assumptions C10_current_table_no_data_race.
 Print Assumptions C10_current_table_no_adjacent_conflict.
+Print Assumptions C10_current_table_covers_the_control_state.
 Print Assumptions C10_reported_offenders_are_the_checked_ones.
